@@ -23,7 +23,7 @@ ADDED = {
     'C09': "Later clauses: C09.e the work object handed over at a rate switch is completely reconfigured (shared with C05.a), C09.f any engine: schedules and kernels of the selectable engines are siblings (shared with C03.a/e). C09.g working space reused at a switch behaves like fresh space (zero-padding clauses shared with C03.g/C05.c); calls through provided forwarders (HighRate::<E>::encoder) are resolved to their targets. C09.h the store inherited at a rate switch is completely re-described by its resize (shared with C04.d). C09.i one-shot functions return the wrapper codec's result on every path (shared with C10.a), C09.j no history lengths (shared with C05.h). C09.g also: the store's insert copies on every path (C05.k).",
     'C10': "Later clauses: C10.e wrappers only forward (shared with C09.c), C10.f the iterator the one-shot decode collects from yields what the accessor exposes (shared with C12.b), C10.g no state survives between calls (shared with C05.f); once(first).chain(rest) and a one-shot function split into private helpers are understood. C10.h/i/j the streaming path both entry points share validates, reports and counts as documented (shared with C06.a/b and C11.a). C10.k the configuration registered with the work object is the caller's own (shared with C06.d). Checked-position helpers (`let pos = self.pos(i)?`) are followed on path conditions and in MIR (jump threading of inlined Result / Option values). Flow of items through a tuple built on several paths is tracked per component. C10.l every caller iterator is drained on every path to Ok (all None edges of its next() sites cut the paths to the Ok exits; shared with C09.i and C06.e); C10.a accepts several new() sites that together cut every path.",
     'C11': "Later clauses: C11.e placement agreement between decode's bitmap regions and the base positions configured at reset, C11.f every round starts clean (shared with C05.a/b), C11.g one locator evaluation (shared with C03.d); decode_begin's payload may be a tuple, a struct or a variant of a private enum. C11.h sufficiency judged on the round's counters (shared with C06.b), C11.i the final FFT covers the positions read back, C11.j table passes complete (shared with C08.f), C11.k every position defined before the first transform (shared with C05.d), C11.l engines run one schedule (shared with C03.a); loops over (a..b).chain(c..d) are split. C11.m nothing a decode reads depends on lengths of grow-only containers (shared with C05.h). C11.n a rejected add leaves no trace (shared with C07.atomic), C11.o handed-over work is reconfigured (shared with C05.e); helpers folded over a kind enum are specialised per variant. C11.d reads `a - b == 0` as `a == b`; C11.e accepts a loop over a stretch of absolute positions that contains a configured region (using next_power_of_two(x) >= x). Literal Ok(true) / Ok(false) payloads of an inlined helper are threaded through the caller's test when consumed on the spot (C11.a). `bits.contains(i)` is read as `bits[i]`; the function configuring a decoder's work object is found by reachability from that decoder's new / reset.",
-    'C12': "Later: the iterator protocol is decided on MIR and covers overrides of Iterator methods other than next (fusedness), DoubleEndedIterator etc. C12.f the repacked range is the exposed range (shared with C04.c), C12.g a round's transform input is fully written in that round (shared with C05.c); a path-sensitive second opinion on the iterator protocol. C12.h re-packed exactly once (shared with C04.b), C12.i store geometry rewritten at each resize (shared with C04.d). C12.a accepts an inherent element accessor of the store whose body is data[index * len..(index + 1) * len] in place of its Index impl.",
+    'C12': "Later: the iterator protocol is decided on MIR and covers overrides of Iterator methods other than next (fusedness), DoubleEndedIterator etc. C12.f the repacked range is the exposed range (shared with C04.c), C12.g a round's transform input is fully written in that round (shared with C05.c); a path-sensitive second opinion on the iterator protocol. C12.h re-packed exactly once (shared with C04.b), C12.i store geometry rewritten at each resize (shared with C04.d). C12.a accepts an inherent element accessor of the store whose body is data[index * len..(index + 1) * len] in place of its Index impl. C12.j the map of given shards is marked by accepted adds only: no Err exit after a write of the bitmap (shared with C07.atomic, filtered to bitmap writes; round 12).",
     'C14': "Later clauses: C14.f polynomial evaluation only through Engine::eval_poly, C14.g engines identical: schedules, kernels and bounded/aligned vector accesses (shared with C03.a/b/e). C14.g also covers the one-eval_poly dispatch (shared with C03.d); free #[target_feature] helpers beside an engine type count as that engine's. C14.f follows private generic helpers that are handed the decoder's own engine parameter.",
     'C16': "Later: C16.a also requires that table initialisers are reached only through their LazyLock (no private recomputation of a shared table). A once-only table in a OnceLock is accepted when touched only through get / get_or_init; set / take / get_mut on it are reported.",
     'C17': "Later clauses: C17.e the store is resized to exactly (work_count, ceil(shard_bytes/64)) and allocates count*len blocks. C17.c the supplied work object travels through every rate switch, C17.d results and iterators only borrow, C17.f the bitmap need is derived from the configuration (shared with C08.e). C17.e accepts a reset that computes the need itself as next_power_of_two(max(original_base_pos + original_count, recovery_base_pos + recovery_count)) after writing those fields; C17.g the working space stays with the codec: no Err exit between a mem::take / replace / swap of the work object (or the inner codec) and storing it back (clause shared with C07.atomic). C17.c accepts unwrap_or_else(ctor) like unwrap_or_default (not unwrap_or(x), which builds x in any case).",
